@@ -11,6 +11,8 @@ using namespace vm;
 #endif
 struct S { int a, b, c; };
 struct W { int v; };
+struct P1 { int x; };        // a third of S
+struct P2 { int x, y; };     // two thirds of S: sizeof(S)/sizeof(P2) is not integral, admissible when every stride is even
 #if PJ_ELEM == 0
 using Elem = int;
 static Elem mk_elem(idx i) { return static_cast<int>(1000 + i); }
@@ -41,6 +43,7 @@ bool all_values(PV&& pv, MView const& m, ExpV&& exp, std::string& why) {
 	});
 	return ok;
 }
+static long g_nonintegral = 0;
 template<class PV, class ExpA>
 bool all_addresses(PV&& pv, MView const& m, ExpA&& expa, std::string& why) {
 	constexpr int R = rank_of<PV>;
@@ -141,6 +144,19 @@ std::vector<Fail> check_projections(V&& v, MView const& m, Elem* data, idx N) {
 			if(got != want || !(c.extensions() == v.extensions())) { why = "array constructed from member_cast"; F("array(member_cast)"); }
 		}
 	}
+	// --- reinterpretation as a NARROWER element type, in place: integral size ratio (S -> P1) on every state; non-integral ratio (S -> P2, 12 -> 8 bytes) on the states where it is
+	//     admissible (every stride even, so that every element starts on a multiple of sizeof(P2) from the base)
+	if constexpr(!CPTR) {
+		mc::cur_phase("reinterpret_array_cast<narrower>()");
+		auto&& n1 = v.template reinterpret_array_cast<P1>();
+		if(!all_addresses(n1, m, [&](idx off) { return data + off; }, why)) { F("reinterpret_array_cast<U>() (sizeof(T) = 3 sizeof(U))"); }
+		bool even = true; for(auto const& dd : m.d) { if(dd.stride % 2 != 0) { even = false; } }
+		if(even && nonempty) {
+			auto&& n2 = v.template reinterpret_array_cast<P2>();
+			if(!all_addresses(n2, m, [&](idx off) { return data + off; }, why)) { F("reinterpret_array_cast<U>() (sizeof(T) = 1.5 sizeof(U), even strides)"); }
+			++g_nonintegral;
+		}
+	}
 	// --- reinterpret with an extra trailing dimension over the element's bytes
 	if constexpr(!CPTR) {
 		mc::cur_phase("reinterpret_array_cast<int>(3)");
@@ -198,7 +214,7 @@ static void run_root_elem(Root& root, Elem* data, idx N, std::vector<idx> const&
 		return bad.empty();
 	}, prefix);
 	mc::R.add("states", st.states); mc::R.add("transitions", st.transitions); mc::R.add("distinct_nontrivial", nontrivial);
-	mc::R.add("element_checks", g_checks); g_checks = 0;
+	mc::R.add("element_checks", g_checks); g_checks = 0; mc::R.add("nonintegral_ratio_casts", g_nonintegral); g_nonintegral = 0;
 	if(st.capped) { mc::R.exhaustive = false; }
 	mc::R.note(rootname + ": completed_depth=" + std::to_string(st.completed_depth) + " states=" + std::to_string(st.states) + " transitions=" + std::to_string(st.transitions));
 }
